@@ -18,10 +18,14 @@ CONSTANTS
   SubCap = 2
   SeqDetail = FALSE
   Readers = {}
+  ReadRevs = {0}
+  MaxReads = 0
+  SnapAtTs = FALSE
   Compactors = {}
   CompactRevs = {}
   MaxCompacts = 0
   DelFaults = {}
+  CompactDetail = FALSE
   EagerSeq = FALSE
   FixedOps <- MCNoFixedOps
   LazyWatchers = {}
